@@ -128,7 +128,7 @@ class GrowLanguage(Facet):
         rec.sample({"spec": spec_str(case["spec"]), "d": d, "decider": self.decider, "language": len(ref), "reached": len(got), "paths": npaths, "complete": complete})
         for trace, exc in errors[:2]:
             rec.fail(
-                f"C04/{self.name}/path-raised/{exc_bucket(exc)}",
+                f"C04/{getattr(self, 'bucket_as', self.name)}/path-raised/{exc_bucket(exc)}",
                 f"decision path {[t[2] for t in trace]} of {self.decider} creation at d={d} raised {exc!r}; grammar {spec_str(case['spec'])}",
             )
         # root-cause attribution: a wrong recursive set (C05's subject) changes what the deciders prefer;
@@ -146,7 +146,7 @@ class GrowLanguage(Facet):
             too_deep = c == ("?", "too-deep-to-traverse") or canon_depth(c) > d
             why = "deeper than d" if too_deep else "not in the reference language"
             rec.fail(
-                f"C04/{self.name}/extra/{'too-deep' if too_deep else 'not-in-reference-set'}{getattr(self, 'attribution', '')}",
+                f"C04/{getattr(self, 'bucket_as', self.name)}/extra/{'too-deep' if too_deep else 'not-in-reference-set'}{getattr(self, 'attribution', '')}",
                 f"{self.decider} creation at d={d} reaches {canon_str(c)} ({why}) via draws {got[c]}; grammar {spec_str(case['spec'])}",
             )
         if complete:
@@ -155,7 +155,7 @@ class GrowLanguage(Facet):
                 only_empty = all(_has_empty_list(c) for c in missing)
                 ex = sorted(missing, key=lambda c: (canon_depth(c), len(str(c))))[0]
                 rec.fail(
-                    f"C04/{self.name}/missing/{'only-programs-with-an-empty-list' if only_empty else 'general'}{getattr(self, 'attribution', '')}",
+                    f"C04/{getattr(self, 'bucket_as', self.name)}/missing/{'only-programs-with-an-empty-list' if only_empty else 'general'}{getattr(self, 'attribution', '')}",
                     f"{self.decider} creation at d={d}: {len(missing)} of {len(ref)} valid programs are unreachable over all {len(got)} reachable ones, e.g. {canon_str(ex)}; grammar {spec_str(case['spec'])}",
                 )
 
@@ -166,6 +166,56 @@ def _has_empty_list(c):
     if c == ("L",):
         return True
     return any(_has_empty_list(x) for x in c[1:])
+
+
+class GrowLanguageAfterRedeclaration(GrowLanguage):
+    """A first grammar is extracted and used to create programs; then the refinement of one finite
+    field is re-declared the documented way (Prod.__init__.__annotations__[f] = Annotated[T, R2]) on
+    the same classes and a new grammar is extracted: grow creation from the NEW grammar must reach
+    exactly the NEW bounded language."""
+
+    name = "grow_equals_language_after_redeclaration"
+    bucket_as = "grow_equals_language"  # same oracle, same root causes as the plain facet
+
+    def budget(self, tier):
+        return (30, 4) if tier == "quick" else (200, 8)
+
+    def run(self, case, rec):
+        from geneticengine.random.sources import NativeRandomSource
+        from vk.spec import redeclare
+
+        w1 = World(case)
+        try:
+            if not w1.productive():
+                rec.discard()
+                return
+            try:  # first use of the classes
+                src = NativeRandomSource(1)
+                rep = w1.make_rep(w1.make_decider(src, "maxdepth", w1.min_depth + 2), "tree")
+                for _ in range(4):
+                    rep.create_genotype(src)
+            except Exception:  # noqa: BLE001
+                pass
+            cands = []
+            for c in case["spec"]["concretes"]:
+                for fn, ft in c["fields"]:
+                    if ft[0] == "ann" and ft[2][0] in ("IntRange", "IntList", "VarRange"):
+                        cands.append((c["name"], fn, ft))
+            if not cands:
+                rec.discard()
+                return
+            cname, fn, ft = cands[len(case["spec"]["concretes"]) % len(cands)]
+            new_r = {"IntRange": ["IntRange", 5, 6], "IntList": ["IntList", [7, 9]], "VarRange": ["VarRange", ["p", "q"]]}[ft[2][0]]
+            if new_r == ft[2]:
+                rec.discard()
+                return
+            spec2 = redeclare(w1.mat, cname, fn, ["ann", ft[1], new_r])
+            case2 = {**case, "spec": spec2}
+            w2 = World(case2, mat=w1.mat)
+            rec.label("redeclared:" + ft[2][0])
+            self._run(case2, rec, w2)
+        finally:
+            w1.cleanup()
 
 
 class PIGrowSubset(GrowLanguage):
@@ -218,4 +268,4 @@ class FullInitializerExact(GrowLanguage):
         return run
 
 
-FACETS = [GrowLanguage(), PIGrowSubset(), FullDeciderSubset(), FullInitializerExact()]
+FACETS = [GrowLanguage(), PIGrowSubset(), FullDeciderSubset(), FullInitializerExact(), GrowLanguageAfterRedeclaration()]
